@@ -3,24 +3,31 @@
 Verus (unit dispatch): the default lists get_all_optimizations / get_all_vulnerabilities / get_all_qa contain EVERY variant of
 their enum ("without a configuration file all patterns are analysed"), and analyze_for_* hands each pattern to the detector
 documented for it (the variant -> detector table is written from the documentation, not read from the match).
-Bounded: the name tables str_to_* (match on lower-cased string literals: outside Verus' subset) in-process against the names
-scraped from the documents, and Opts::new / main through the real binary over flag / toml / default combinations."""
+Verus (unit names): str_to_optimization / str_to_vulnerability / str_to_qa return, for every name whose lower-cased form is a
+documented name, the pattern documented under that name (table generated from the documentation); lemmas: every documented
+name selects its own pattern (hence distinct names, distinct patterns), every pattern has a documented name.
+Bounded: "an unknown name makes the run fail" (no must-panic postcondition in Verus), the casing semantics of
+str::to_lowercase (uninterpreted `lower`), and Opts::new / main through the real binary over flag / toml / default combinations;
+the in-process name-table check against the names scraped from the documents stays as the counterexample engine."""
 from .. import driver as D
 from . import bounded
 
-UNITS = [("dispatch", ["get_all_optimizations", "get_all_vulnerabilities", "get_all_qa", "start", "end",
+UNITS = [("names", None), ("dispatch", ["get_all_optimizations", "get_all_vulnerabilities", "get_all_qa", "start", "end",
                        "analyze_for_optimization", "analyze_for_vulnerability", "analyze_for_qa"])]
 TRUST = [
+    "unit names: str::to_lowercase is an uninterpreted function `lower` of the character sequence; two str values with equal character sequences are equal (axiom_str_ext); the name -> pattern table is generated from the documentation table in contracts/dispatch.py",
     "in unit dispatch the detectors are external_body stubs `r@ == spec_<fn>(source_unit)`; that <fn> is the detector of the documented pattern is checked by name: the function must be defined in the module file named after the pattern",
     "solang_parser::parse is a partial function of (text, file number)",
 ]
-BOUNDED_PART = ["str_to_optimization / str_to_vulnerability / str_to_qa (match on `.to_lowercase().as_str()` literals)",
+BOUNDED_PART = ["the `unknown name => failure` clause of str_to_* (Verus cannot state must-panic) and the casing behaviour of str::to_lowercase",
                 "Opts::new, main (clap, toml, process exit): exercised through the built binary"]
 
 
 def key_to_functions(key):
     if "default" in key or "get_all" in key:
         return ["get_all_optimizations", "get_all_vulnerabilities", "get_all_qa"]
+    if any(k in key for k in ("name", "variant", "collide")):
+        return ["str_to_optimization", "str_to_vulnerability", "str_to_qa"]
     return []
 
 
